@@ -42,9 +42,10 @@ def run(ck, progs):
     ck.rule("C08.5", "the counter a thread's vote depends on is conserved (a spurious increment would make the run never end): C07.1")
     ck.rule("C08.6", "a copy of the thread count kept in shared state (vote counter) is taken after the last point where the runtime changes it")
     ck.rule("C08.7", "RootsimStop on the parallel runtime sends every rank at least as many termination notices as it is waiting for")
-    ck.rule("C08.8", "the control-message broadcast (GVT start, termination) reaches every rank: evaluated over the loop index for 1..8 ranks")
+    ck.rule("C08.8", "the control-message broadcast (GVT start, termination) reaches every rank, and one worker is started per thread id and every worker joined: evaluated over the loop indices for 1..8 ranks / threads")
     for cfg, P in progs.items():
         rules_cover.check_broadcast(ck, P, "C08.8")
+        rules_cover.check_spawn_join(ck, P, "C08.8")
         _after_node_barrier(ck, P, cfg)
         _thread_count_copies(ck, P, cfg)
         _stop(ck, P, cfg)
